@@ -2,6 +2,7 @@
 from __future__ import annotations
 
 import random
+import re
 
 import core
 from gen import misc as GM
@@ -19,6 +20,15 @@ def W(rng, must=False):
     return rng.choice(["", "", " ", "  ", "\t"])
 
 
+_OP = re.compile(r"^(===|~=|==|!=|<=|>=|<|>)")
+
+
+def _op_ws(rng, c):
+    """white space between the operator and the version (PEP 508: `version_cmp wsp* version`)"""
+    m = _OP.match(c)
+    return c if not m else m.group(1) + rng.choice([" ", "  ", "\t"]) + c[m.end():]
+
+
 def req_struct(rng):
     st = {"name": rng.choice(GM.NAMES), "extras": rng.sample(["a", "B_c", "d.e", "f", "g-h", "x1"], rng.randrange(0, 4)) if rng.random() < 0.5 else [],
           "clauses": [], "paren": False, "url": None, "marker": None}
@@ -28,6 +38,7 @@ def req_struct(rng):
         near = GV.struct(rng)
         st["clauses"] = [GS.spell_clause(rng, GS.clause_struct(rng, near=near), ws=False) for _ in range(rng.randrange(0, 4))]
         st["clauses"] = [c for c in st["clauses"] if "," not in c and ";" not in c]
+        st["clauses"] = [_op_ws(rng, c) if rng.random() < 0.2 else c for c in st["clauses"]]
         st["paren"] = bool(st["clauses"]) and rng.random() < 0.3
     if rng.random() < 0.5:
         st["marker"] = GM.marker(rng, 2)
@@ -69,15 +80,306 @@ def render(rng, st, loose=False):
     return s
 
 
+# ---------------------------------------------------------------- correspondence helpers
+# texts that run first on every check: the two known findings, and one text per branch of the parser that the random
+# stream reaches only rarely
+WITNESS_TEXTS = [
+    "name ===1.0, >=2", "name ===1.0,>=2", "n==1.0,==1.0.0", "n==1.0.0,==1.0", "a-é", "a.", "a_", "-a", "a-b.c_d",
+    "name@ https://x/y;os_name=='a'", "name@ https://x/y ;os_name=='a'", "name @ https://x/y ; os_name=='a'",
+    "name @ https://x/y >=1", "name@https://x/y\n", "name @ u ", "name @", "name @ ;", "x>=1.0.*", "x>=1.0+local", "x>=1.0+Local",
+    "x==1.0.*+local", "x~=1", "x~=1.0+a", "x===", "x=== a", "x===;os_name=='a'", "x (==1.0)", "x(==1.0", "x( ==1.0 , <2 ) ;os_name=='a'",
+    "x()", "x ( )", "x[a,,b]", "x[a b]", "x[]", "x[ ]", "x[a,]", "x[A,a,A]", "x[a", "x >=1!x", "x>=1!2", "x >= 1.0a.", "x==1.0.post",
+    "x ==1.0 , ===abc;os_name=='a'", "x>=1,", "x>=1,,<2", "x,>=1", "x>=1 <2", "x>=1;", "x;", " x ", "x\n", "x\n\n", "\tx\t[\ta\t]\t>=1\t;\tos_name=='a'\t",
+    "x>=1 ; extra == 'Foo_Bar' or (os_name=='a' and extra=='X.y')", "x;os_name=='a'or os_name=='b'", "x>=1;python_version<'3'\n",
+    "x==1.0-1", "x==1.0-", "x==1.0_dev.", "x==v1.0", "x==V1", "x!=1.*", "x==1.*.*", "x== 1.0 ,\t!= 2", "x=>1", "x=1", "x>1<2",
+    "x===1.0)", "x (===1.0)", "x (===1.0,)", "x (===1.0 )", "x ===\xa0a", "x >=1.0\x1f", "x[a]@ u", "Foo.Bar-baz_qux>=1", "foo-bar.BAZ>=1",
+]
+NEW_RULES = ["LEFT_BRACKET", "RIGHT_BRACKET", "SEMICOLON", "COMMA", "AT", "URL", "IDENTIFIER", "SPECIFIER",
+             "VERSION_PREFIX_TRAIL", "VERSION_LOCAL_LABEL_TRAIL", "LEFT_PARENTHESIS", "RIGHT_PARENTHESIS", "WS", "END"]
+SPEC_CONTEXT = ["", "", " ", "a", "_", "(", ",", "]", "=", "==", "!", "!=", "~=", "<", ">", "é", "\t", "="]
+SPEC_FOLLOW = ["", "", ",", ";", " ", ")", ".*", "+local", "+Local", "+", ".5", "a1", "-", "_dev", ".post", "!1", "!", ".", "*", "\n",
+               ",>=2", " ,<3", ".*.*", "-1", "rc", "é", "\x1f", "\xa0x"]
+IDENT_PIECES = ["a", "B", "0", "-", "_", ".", "ab", "a-b", "x1", "é", "١", " ", "[", "--", "._"]
+
+
+def _encl(xs):
+    xs = list(xs)
+    return ",".join(core.enc(x) for x in xs) if xs else "_"
+
+
+def real_parse(s):
+    from packaging.requirements import InvalidRequirement, Requirement
+    try:
+        r = Requirement(s)
+    except InvalidRequirement:
+        return "err InvalidRequirement"
+    except Exception as e:
+        return "raw " + type(e).__name__
+    return "ok " + "|".join([core.enc(r.name), _encl(sorted(r.extras)), _encl(sorted(str(x) for x in r.specifier)),
+                             core.enc(r.url), core.enc(None if r.marker is None else str(r.marker))])
+
+
+def real_str(s):
+    from packaging.requirements import InvalidRequirement, Requirement
+    try:
+        r = Requirement(s)
+    except InvalidRequirement:
+        return "err InvalidRequirement"
+    except Exception as e:
+        return "raw " + type(e).__name__
+    s1 = str(r)
+    try:
+        r2 = Requirement(s1)
+    except InvalidRequirement:
+        return f"ok {core.enc(s1)} err InvalidRequirement"
+    except Exception as e:
+        return f"ok {core.enc(s1)} raw {type(e).__name__}"
+    return f"ok {core.enc(s1)} ok {core.enc(str(r2))} {core.encb(r2 == r)}{core.encb(hash(r2) == hash(r))}"
+
+
+def real_eq(a, b):
+    from packaging.requirements import InvalidRequirement, Requirement
+    rs = []
+    for t in (a, b):
+        try:
+            rs.append(Requirement(t))
+        except InvalidRequirement:
+            return "err InvalidRequirement"
+        except Exception as e:
+            return "raw " + type(e).__name__
+    return core.encb(rs[0] == rs[1]) + core.encb(hash(rs[0]) == hash(rs[1]))
+
+
+def real_match(rule, src, pos):
+    from packaging import _tokenizer
+    t = _tokenizer.Tokenizer(src, rules=_tokenizer.DEFAULT_RULES)
+    t.position = pos
+    if not t.check(rule):
+        return "~"
+    return str(len(t.next_token.text))
+
+
+def real_marker(s, text):
+    from packaging.markers import InvalidMarker, Marker
+    from packaging.requirements import InvalidRequirement, Requirement
+    try:
+        r = Requirement(s)
+    except InvalidRequirement:
+        return "err InvalidRequirement"
+    except Exception as e:
+        return "raw " + type(e).__name__
+    try:
+        m = Marker(text)
+    except InvalidMarker:
+        return "err InvalidMarker"
+    if r.marker is None:
+        return "none"
+    return "ok " + core.encb(str(r.marker) == str(m)) + core.encb(r.marker == m) + core.encb(hash(r.marker) == hash(m))
+
+
+def vary(rng, st):
+    """a structure that is equal to ``st`` as a requirement, or a near neighbour of it"""
+    st2 = dict(st, extras=list(st["extras"]), clauses=list(st["clauses"]))
+    k = rng.randrange(10)
+    if k == 0:
+        st2["name"] = st["name"].upper().replace("-", "_").replace(".", "-")
+    elif k == 1:
+        st2["name"] = st["name"].replace("-", "--").replace("_", "._").swapcase()
+    elif k == 2:
+        rng.shuffle(st2["extras"])
+        st2["extras"] += st2["extras"][:1]
+    elif k == 3 and st["extras"]:
+        st2["extras"][0] = st2["extras"][0].swapcase()           # extras are compared as written
+    elif k == 4:
+        rng.shuffle(st2["clauses"])
+        st2["clauses"] += st2["clauses"][:1]
+    elif k == 5 and st["clauses"]:
+        c = st["clauses"][0]
+        m = re.match(r"^(\s*[<>=!~]+\s*v?(?:[0-9]+!)?[0-9]+(?:\.[0-9]+)*)(.*)$", c)
+        if m:
+            st2["clauses"][0] = m.group(1) + rng.choice([".0", ".00", ".1"]) + m.group(2)
+    elif k == 6 and st["clauses"]:
+        del st2["clauses"][rng.randrange(len(st2["clauses"]))]
+    elif k == 7 and st["marker"]:
+        st2["marker"] = st["marker"].replace("'", '"') if rng.random() < 0.5 else "(" + st["marker"] + ")"
+    elif k == 8:
+        st2["marker"] = None if st["marker"] else "os_name=='a'"
+    elif k == 9 and st["url"]:
+        st2["url"] = st["url"] + "x"
+    return st2
+
+
+def damage_req(rng, s):
+    """token- and character-level damage to a requirement string"""
+    k = rng.randrange(8)
+    i = rng.randrange(len(s) + 1)
+    if k == 0:
+        return s[:i] + rng.choice(GV.ODD_CHARS) + s[i:]
+    if k == 1 and s:
+        return s[:i] + s[i + 1:]
+    if k == 2:
+        return s[:i] + rng.choice(["[", "]", "(", ")", ",", ";", "@", " ", "\t", "\n", "===", ">=", ".*", "+x", "a", "-", "_", ".", "1", "!"]) + s[i:]
+    if k == 3:
+        toks = re.findall(r"\[|\]|\(|\)|,|;|@|'[^']*'|\"[^\"]*\"|[=~!<>]+|[\w.+*!-]+|\s+|.", s, flags=re.S)
+        if len(toks) > 1:
+            a, b = rng.randrange(len(toks)), rng.randrange(len(toks))
+            toks[a], toks[b] = toks[b], toks[a]
+            return "".join(toks)
+    if k == 4:
+        toks = re.findall(r"\s+|\S+", s)
+        if toks:
+            del toks[rng.randrange(len(toks))]
+            return "".join(toks)
+    if k == 5:
+        return s + rng.choice(["\n", "\n\n", " \n", "\r\n", "\x00", ";", ",", ")", " x", "@ u"])
+    if k == 6:
+        return GM.marker(rng, 1) if rng.random() < 0.3 else s.replace(",", rng.choice([", ", " ,", ",,", ""]), 1)
+    return s[i:] + s[:i]
+
+
+def spec_probe(rng):
+    """(source, position) for SPECIFIER: a clause (valid in some spelling, or malformed) in a context and with a continuation"""
+    ctx = rng.choice(SPEC_CONTEXT)
+    c = GS.malformed_clause(rng) if rng.random() < 0.3 else GS.spell_clause(rng, GS.clause_struct(rng), ws=rng.random() < 0.5).lstrip()
+    if rng.random() < 0.2:
+        c = _op_ws(rng, c)
+    return ctx + c + rng.choice(SPEC_FOLLOW), len(ctx)
+
+
+def token_probe(rng, s):
+    """(rule, position) on a requirement string: mostly token starts, mostly the rule that could match there"""
+    pos = rng.randrange(len(s) + 1)
+    rule = rng.choice(NEW_RULES)
+    if rng.random() < 0.7:
+        c = s[pos:pos + 1]
+        rule = {"[": "LEFT_BRACKET", "]": "RIGHT_BRACKET", ";": "SEMICOLON", ",": "COMMA", "@": "AT", "(": "LEFT_PARENTHESIS",
+                ")": "RIGHT_PARENTHESIS", " ": "WS", "\t": "WS", "": "END", "\n": "END", "+": "VERSION_LOCAL_LABEL_TRAIL",
+                ".": "VERSION_PREFIX_TRAIL"}.get(c, rule)
+        if c in "=<>!~" and c:
+            rule = "SPECIFIER"
+        elif c.isalnum() and rng.random() < 0.7:
+            rule = rng.choice(["IDENTIFIER", "IDENTIFIER", "URL"])
+    return rule, pos
+
+
 class C08(Prop):
     id = "C08"
-    claim = False          # not registered in MANIFEST.json until its theorems are in
-    lean_modules = []
-    theorems = []
-    rule = ("requirement structures (name, extras, clause list in any spelling, parenthesised or not, URL, marker) rendered with "
-            "random optional whitespace at every wsp* position of the PEP 508 grammar, plus damaged variants; "
-            "non-trivial = accepted by Requirement")
-    budget = {"quick": (0, 4000), "thorough": (0, 120000)}
+    lean_modules = ["PkgProofs.Props.C08"]
+    theorems = ["C08.str_roundtrip", "C08.str_idempotent", "C08.url_xor_spec", "C08.eq_is_pep503_and_spec_eq",
+                "C08.eq_equivalence", "C08.hash_agrees", "C08.extras_as_set", "C08.marker_after_url_needs_ws",
+                "C08.requirement_marker_eq_marker", "C08.parse_wf", "C08.parsed_roundtrip", "C08.requirement_roundtrip", "C08.parse_render", "C08.specifier_is_specifierset", "C08.Examples.lay_ok", "ReqLayout.parseSource_layout",
+                "ReqLayout.check_clause", "ReqLayout.versionMany_layout", "ReqLayout.parseExtras_layout",
+                "ReqLayout.parseReqMarker_text", "ReqLayout.mkSpecSet_raw", "C08.Examples.glued_semicolon", "C08.Examples.f05_rejected",
+                "C08.Examples.f06_str_depends_on_order", "C08.Examples.specifier_rule_tied",
+                "ReqClause.verForm_app", "ReqClause.stages_of_scanCore", "ReqClause.verForm_clause", "ReqClause.matchSpecifier_op",
+                "ReqClause.tokExact_of_parse", "ReqClause.ver_chars_of_parse", "ReqClause.takeKw_pre_rest", "ReqWf.name_identOK",
+                "ReqWf.parseExtras_idents", "ReqWf.members_roundtrip", "ReqWf.marker_wf", "ReqMk.fuel_enough", "ReqMk.marker_standalone", "ReqMk.parseMarker_sim",
+                "ReqRound.parse_str", "ReqRound.reparsed_props", "ReqRound.mkSpecSet_specStr", "ReqRound.str_eq_render",
+                "ReqParse.parseSource_render", "ReqParse.versionMany_canon", "ReqParse.parseReqMarker_canon",
+                "ReqLex.checkR_ident", "ReqLex.checkR_url", "ReqLex.matchSpecifier_arb"]
+    generated = ["MarkerTok", "ReqTok"]
+    rule = ("requirement structures (name, extras, clause list in any spelling incl. white space after the operator, "
+            "parenthesised or not, URL, marker) rendered with random optional whitespace at every wsp* position of the "
+            "PEP 508 grammar; str() of parsed requirements; pairs of equal / neighbouring structures; token- and "
+            "character-level damage; direct tokenizer probes of every requirement rule (SPECIFIER in every look-behind "
+            "context and before every kind of continuation); non-trivial = accepted by Requirement / rule matched")
+    trusted = ["hash() as an uninterpreted function of Req.hashKey (canonical name, the two frozensets as sorted key lists, "
+               "url, the marker's hash key)",
+               "the body of every SPECIFIER alternative is mirrored by the hand-written prefix scanner Req.verForm; the "
+               "translator re-checks on every run that the rule still has the shape the scanner mirrors (operators, guards, "
+               "keyword lists and repetition bounds are data) and that it is literally the body of Specifier._regex (C12)"]
+    partial = ["parse_render is proved for every layout except the class of finding F05 (Layout.OK asks for white space between "
+               "an === clause and a comma after it, and a non-empty === text); layouts use the PEP 508 wsp (space, tab): the "
+               "further ASCII white space the SPECIFIER rule tolerates after an operator (newline, form feed ...) and a final "
+               "newline before END are covered by the correspondence only",
+               "requirement_roundtrip assumes the marker's literals are PEP 508 strings (C09.LitOK: no backslash, CR, LF, NUL, "
+               "surrogate; not both quote characters) — the same condition as C09.constructed_marker_roundtrip",
+               "the bodies of the SPECIFIER alternatives are mirrored by the hand-written prefix scanner Req.verForm and tied by "
+               "correspondence (operators, look-behind guards, keyword lists and repetition bounds are regenerated data; the "
+               "translator re-checks the shape on every run)",
+               "canonicalize_name on non-ASCII names is the model of C13 (context-dependent final sigma not modelled); "
+               "requirement names are ASCII by the IDENTIFIER rule, only extra-literals in markers can be non-ASCII"]
+    budget = {"quick": (3000, 4000), "thorough": (60000, 120000)}
+
+    # ---- correspondence
+    def gen_cases(self, rng, n):
+        for t in WITNESS_TEXTS:
+            yield ("req.parse", [core.enc(t)])
+            yield ("req.str", [core.enc(t)])
+        k = 0
+        while k < n:
+            k += 1
+            r = rng.random()
+            st = req_struct(rng)
+            s = render(rng, st, loose=rng.random() < 0.3)
+            if rng.random() < 0.15:
+                s = damage_req(rng, s)
+                if rng.random() < 0.3:
+                    s = damage_req(rng, s)
+            if r < 0.40:
+                yield ("req.parse", [core.enc(s)])
+            elif r < 0.58:
+                yield ("req.str", [core.enc(s)])
+            elif r < 0.73:
+                t = render(rng, vary(rng, st), loose=rng.random() < 0.2)
+                if rng.random() < 0.1:
+                    t = damage_req(rng, t)
+                yield ("req.eq", [core.enc(s), core.enc(t)])
+            elif r < 0.80:
+                # the marker part against the stand-alone marker parser on the same text
+                text = st["marker"] if st["marker"] is not None else GM.marker(rng, 2)
+                if rng.random() < 0.15:
+                    text = damage_req(rng, text)
+                st2 = dict(st, marker=text)
+                yield ("req.marker", [core.enc(render(rng, st2)), core.enc(text)])
+            elif r < 0.90:
+                src, pos = spec_probe(rng)
+                yield ("req.match", ["SPECIFIER", core.enc(src), str(pos)])
+            elif r < 0.93:
+                src = "".join(rng.choice(IDENT_PIECES) for _ in range(rng.randrange(1, 6)))
+                yield ("req.match", ["IDENTIFIER", core.enc(src), str(rng.randrange(len(src) + 1))])
+            else:
+                rule, pos = token_probe(rng, s)
+                yield ("req.match", [rule, core.enc(s), str(pos)])
+
+    def real(self, op, args):
+        if op == "req.parse":
+            return real_parse(core.dec(args[0]))
+        if op == "req.str":
+            return real_str(core.dec(args[0]))
+        if op == "req.eq":
+            return real_eq(core.dec(args[0]), core.dec(args[1]))
+        if op == "req.match":
+            return real_match(args[0], core.dec(args[1]), int(args[2]))
+        if op == "req.marker":
+            return real_marker(core.dec(args[0]), core.dec(args[1]))
+        raise KeyError(op)
+
+    def nontrivial(self, op, args, out):
+        return out.startswith("ok") or (op == "req.eq" and out[:1] in "01") or (op == "req.match" and out != "~")
+
+    def branch(self, op, args, out):
+        if op == "req.match":
+            return "match:" + args[0] + ":" + ("hit" if out != "~" else "miss")
+        if op == "req.parse" and out.startswith("ok"):
+            f = out[3:].split("|")
+            s = core.dec(args[0])
+            feats = ("E" if f[1] != "_" else "") + ("C%d" % min(3, f[2].count(",") + 1) if f[2] != "_" else "") + \
+                    ("U" if f[3] != "~" else "") + ("M" if f[4] != "~" else "") + ("P" if "(" in s.split(";")[0] else "") + \
+                    ("A" if "===" in s.split(";")[0] else "")
+            return "parse:ok:" + feats
+        if op == "req.str" and out.startswith("ok"):
+            return "str:" + " ".join(out.split(" ")[2:3]) + ":" + out[-2:]
+        return op[4:] + ":" + out[:24]
+
+    def judge(self, op, args, real, model, driver):
+        if op in ("req.parse", "req.str"):
+            return ("text_roundtrip", {"s": core.dec(args[0])})
+        if op == "req.eq":
+            return ("eq_hash_texts", {"a": core.dec(args[0]), "b": core.dec(args[1])})
+        if op == "req.marker":
+            return ("marker_texts", {"s": core.dec(args[0]), "marker": core.dec(args[1])})
+        return None
 
     def gen_laws(self, rng, n):
         for i in range(n):
@@ -97,6 +399,8 @@ class C08(Prop):
         from packaging.requirements import InvalidRequirement, Requirement
         from packaging.specifiers import SpecifierSet
         from packaging.utils import canonicalize_name
+        if law in ("text_roundtrip", "eq_hash_texts", "marker_texts"):
+            return text_law(law, inp)
         st = inp["st"]
         rng = random.Random(inp["seed"])
         if not st["name"] or not isinstance(st["clauses"], list):
@@ -204,6 +508,56 @@ class C08(Prop):
                 return False, "marker after URL + whitespace not recognised"
             return True, ""
         raise KeyError(law)
+
+
+
+def text_law(law, inp):
+    """the statement's round-trip / equality parts for given texts (what a model/implementation disagreement is judged by)"""
+    from packaging.markers import InvalidMarker, Marker
+    from packaging.requirements import InvalidRequirement, Requirement
+    for v in inp.values():
+        if not isinstance(v, str):
+            raise TypeError("text")
+    if law == "text_roundtrip":
+        s = inp["s"]
+        try:
+            r = Requirement(s)
+        except InvalidRequirement:
+            return True, "rejected"
+        t = str(r)
+        try:
+            r2 = Requirement(t)
+        except InvalidRequirement as e:
+            return False, f"str(Requirement({s!r})) = {t!r} does not parse: {str(e).splitlines()[0]}"
+        if str(r2) != t:
+            return False, f"str not idempotent: {t!r} -> {str(r2)!r}"
+        if not (r2 == r) or hash(r2) != hash(r):
+            return False, f"re-parsed requirement differs (==: {r2 == r}, hash equal: {hash(r2) == hash(r)}) for {t!r}"
+        if r.url is not None and len(r.specifier) != 0:
+            return False, f"Requirement({s!r}) has both a URL and version clauses"
+        return True, ""
+    if law == "eq_hash_texts":
+        try:
+            a, b = Requirement(inp["a"]), Requirement(inp["b"])
+        except InvalidRequirement:
+            return True, "rejected"
+        if a == b and hash(a) != hash(b):
+            return False, f"Requirement({inp['a']!r}) == Requirement({inp['b']!r}) but their hashes differ"
+        if (a == b) != (b == a):
+            return False, "== is not symmetric"
+        return True, ""
+    if law == "marker_texts":
+        try:
+            r = Requirement(inp["s"])
+            m = Marker(inp["marker"])
+        except (InvalidRequirement, InvalidMarker):
+            return True, "rejected"
+        if r.marker is None or not inp["s"].rstrip(" \t\n").endswith(inp["marker"].rstrip(" \t\n")):
+            raise ValueError("the requirement text does not end with the marker text")
+        if not (r.marker == m and str(r.marker) == str(m) and hash(r.marker) == hash(m)):
+            return False, f"Requirement({inp['s']!r}).marker = {str(r.marker)!r} but Marker({inp['marker']!r}) = {str(m)!r}"
+        return True, ""
+    raise KeyError(law)
 
 
 PROP = C08()
